@@ -65,6 +65,9 @@ def verify_function(index, registry, qual, prune_ms=150) -> FunctionResult:
     for combo in combos:
         case = dict(zip(names, combo))
         _verify_case(index, registry, res, module, cls, fnode, contract, key, case, prune_ms, first=(combo == combos[0]))
+    for o in getattr(contract, "expect_outcomes", []):
+        if not res.outcomes.get(o) and not res.errors:
+            res.errors.append("expected outcome %r has no feasible path (outcomes=%s): its obligations hold vacuously" % (o, res.outcomes))
     return res
 
 
